@@ -20,21 +20,21 @@ import (
 )
 
 type event struct {
-	A   string `json:"a"`
-	K   string `json:"k"`
-	H   int64  `json:"h"`
-	Sz  int    `json:"sz"`
-	Res string `json:"res"`
-	N   int64  `json:"n"`
-	F   int    `json:"f"`
-	J   int    `json:"j"`
-	C   string `json:"c"`
-	Ign int    `json:"ign"`
-	T   string `json:"t"`
-	Ids []int  `json:"ids"`
-	End string `json:"end"`
-	id   int  // record written by a w/ws event
-	real bool // Sz is the size seen on disk (before that: an estimate)
+	A    string `json:"a"`
+	K    string `json:"k"`
+	H    int64  `json:"h"`
+	Sz   int    `json:"sz"`
+	Res  string `json:"res"`
+	N    int64  `json:"n"`
+	F    int    `json:"f"`
+	J    int    `json:"j"`
+	C    string `json:"c"`
+	Ign  int    `json:"ign"`
+	T    string `json:"t"`
+	Ids  []int  `json:"ids"`
+	End  string `json:"end"`
+	id   int    // record written by a w/ws event
+	real bool   // Sz is the size seen on disk (before that: an estimate)
 }
 
 type recorder struct {
@@ -44,6 +44,7 @@ type recorder struct {
 	height int64
 	byID   map[int]*event
 	broken string
+	noTick bool // behind a damage the sizes of the files are not tracked: no head-size checks
 }
 
 func (rc *recorder) add(e *event) *event {
@@ -89,12 +90,36 @@ func (rc *recorder) write() {
 	}
 	syncd := kind == "eh" || rc.r.Intn(3) == 0 // consensus writes markers and its own messages synced
 	id := w.next
+	// one write in eight: the group's ticker runs its head-size check INSIDE the write, behind a
+	// seeded one of the group writes the real encoder makes for the message (one, as implemented:
+	// the specification explains the event as WriteTick with g = 1)
+	var tick *event
+	if kind != "huge" && !rc.noTick && w.limit > 0 && w.gwPer > 0 && rc.r.Intn(8) == 0 {
+		w.fireAt = 1 + rc.r.Intn(w.gwPer)
+		w.fire = func() {
+			var size int64
+			if st, err := os.Stat(w.head()); err == nil {
+				size = st.Size()
+			}
+			g := w.wal.Group()
+			before := g.MaxIndex()
+			g.VerifCheckHeadSizeLimit()
+			tick = &event{N: size, Res: "no", J: 1}
+			if g.MaxIndex() != before {
+				tick.Res = "rot"
+			}
+		}
+	}
 	res := w.write(syncd, kind, h)
+	w.fire = nil
 	a := "w"
 	if syncd {
 		a = "ws"
 	}
 	e := rc.add(&event{A: a, K: kind, H: h, Res: res, id: id})
+	if tick != nil {
+		e.A, e.N, e.J, e.T = a+"t", tick.N, tick.J, tick.Res // T: what the check did ("rot" / "no")
+	}
 	if res == "ok" {
 		rc.byID[id] = e
 		// the size is not known before the record is on disk (the time stamp is taken inside
@@ -295,6 +320,7 @@ func (rc *recorder) oneLog(root string, seed int64, big bool) {
 	rc.height = 0
 	rc.byID = map[int]*event{}
 	rc.broken = ""
+	rc.noTick = false
 	w := &world{root: root, recs: map[int]*rec{}, next: 1, zero: map[int]bool{}, rng: rc.r}
 	w.pick = func(id int) string { return msgKinds[rc.r.Intn(len(msgKinds))] }
 	rc.w = w
@@ -374,6 +400,7 @@ func (rc *recorder) oneLog(root string, seed int64, big bool) {
 	rc.add(&event{A: "fl"})
 	rc.sync(false)
 	rc.observe(false)
+	rc.noTick = true
 	// damage: 1..3 isolated damages, at most 2 that lose the framing
 	nd := 1 + rc.r.Intn(3)
 	losing := 0
